@@ -327,14 +327,16 @@ Qed.
 Lemma unpadded_store_refuted : exists data, Z.even (zlen (lut_bytes 8 data)) = false.
 Proof. exists [1; 2; 3]. reflexivity. Qed.
 
-Lemma plain_lut_even_iff bits first data d s : plain_lut bits first data = Ok (d, s) ->
-  (Z.even (zlen s) = true <-> bits = 16 \/ Z.even (zlen data) = true).
+Lemma plain_lut_spec bits first data :
+  (plain_lut bits first data = Err "ValueError" <-> plain_ok bits first data = false) /\
+  (forall d s, plain_lut bits first data = Ok (d, s) ->
+     d = lut_descriptor bits first data /\ s = palette_store bits data /\ Z.even (zlen s) = true).
 Proof.
-  unfold plain_lut. destruct (plain_ok bits first data) eqn:E; [|discriminate].
-  intros H. inversion H; subst. assert (Hb : bits = 8 \/ bits = 16) by (unfold plain_ok in E; lia).
-  destruct Hb as [-> | ->]; unfold lut_bytes; cbn [Z.eqb Pos.eqb].
-  - split; [auto|]. intros [? | ?]; [discriminate|assumption].
-  - rewrite zlen_le16, Z.even_mul. split; auto.
+  unfold plain_lut. destruct (plain_ok bits first data) eqn:E; split.
+  - split; discriminate.
+  - intros d s H. inversion H; subst. repeat split. apply palette_store_even. unfold plain_ok in E. lia.
+  - split; reflexivity.
+  - intros d s H. discriminate.
 Qed.
 
 (* ------------------------------------- identifiers of one multi-object call *)
